@@ -21,7 +21,14 @@ def handle (fn : String) (a : Json) : R Json := do
   match fn with
   | "process" =>
     let cap ← C18.Driver.optNat a "cap"
-    let decode ← encList (← field a "decode")
+    -- either the decode set itself, or the configuration it is wired from (runtime codecs, env switch, compression_level)
+    let decode ← match fieldOpt a "decode" with
+      | some v => encList v
+      | none => do
+        let runtime ← encList (← field a "runtime")
+        let env ← match fieldOpt a "zstd_env" with | none => pure none | some v => do pure (some (← str v))
+        let lvl ← C18.Driver.optInt a "level"
+        pure (mkDecode runtime env lvl)
     let exempt ← (← arrF a "exempt").mapM str
     let verb ← strF a "verb"
     let path ← strF a "path"
